@@ -34,12 +34,13 @@ CONSTANTS Scns,       \* names of the scenarios explored (the scenario is chosen
           Mech,       \* mechanism name
           ObsName,    \* which observables the orders range over
           WithSelect, \* BOOLEAN: behaviours continue on a grid selected from the source
+          WithDual,   \* BOOLEAN: behaviours continue on the dual of the (selected) grid
           MaxPre,     \* ... selected after at most this many observations on the source
           TrackHist   \* BOOLEAN
 
 VARIABLES scn,    \* the scenario
           g,      \* [ m, ds, ds0 ] : mesh of the current grid, its store, the store as constructed
-          phase,  \* "src" : the constructed grid, "sub" : a grid selected from it
+          phase,  \* "src" : the constructed grid, "sub" : a grid selected from it, "dual" : the dual of either
           seen,   \* observables already observed on the current grid (only with TrackHist)
           hist    \* the steps so far (only with TrackHist)
 vars == << scn, g, phase, seen, hist >>
@@ -205,12 +206,29 @@ Select(s) ==
     /\ phase' = "sub" /\ seen' = {}
     /\ UNCHANGED scn
     /\ hist' = IF TrackHist THEN Append(hist, << "select", s.dim >>) ELSE hist
-Next == (\E v \in ObsSet : Observe(v)) \/ (\E s \in Sc.sels : Select(s))
+\* The dual (Grid.get_dual) is a NEW grid constructed from a face table only: one face per node of the
+\* current grid that has at least three faces, its corners those faces, as wide as the largest node star.
+\* Which cyclic order the corners come in is C18's business (Dual.tla); the relations here hold for any.
+Star(m, v) == SetToSortSeq(FacesAtNode(m, v), Lt)
+DualFaces(m, nn) == LET vs == SetToSortSeq({ v \in 0..(nn - 1) : Valence(m, v) >= 3 }, Lt)
+                    IN [ i \in 1..Len(vs) |-> Star(m, vs[i]) ]
+HasDual(m, nn) == \E v \in 0..(nn - 1) : Valence(m, v) >= 3
+Dual ==
+    /\ phase \in { "src", "sub" } /\ WithDual /\ HasDual(g.m, g.ds.nn)
+    /\ WithSelect /\ TrackHist => phase = "sub"
+    /\ LET dm == DualFaces(g.m, g.ds.nn)
+           w  == MaxOf({ Valence(g.m, v) : v \in 0..(g.ds.nn - 1) })
+           ds == ("fn" :> Stored(dm, w)) @@ ("nn" :> Len(g.m))
+       IN g' = [ m |-> dm, ds |-> ds, ds0 |-> ds ]
+    /\ phase' = "dual" /\ seen' = {}
+    /\ hist' = IF TrackHist THEN Append(hist, << "dual", "get_dual" >>) ELSE hist
+    /\ UNCHANGED scn
+Next == (\E v \in ObsSet : Observe(v)) \/ (\E s \in Sc.sels : Select(s)) \/ Dual
 Spec == Init /\ [][Next]_vars
 
 (* ---- the properties ------------------------------------------------------------ *)
 W == Len(g.ds.fn[1])
-TypeOK == /\ phase \in { "src", "sub" } /\ seen \subseteq ObsSet
+TypeOK == /\ phase \in { "src", "sub", "dual" } /\ seen \subseteq ObsSet
           /\ WellFormed(g.m, g.ds.nn) /\ g.ds.fn = Stored(g.m, W) /\ W >= MaxSize(g.m)
 \* the scenario is a well-formed source (a lemma about MeshSources, checked on the scenario)
 SourceWellFormed == SuppliedWellFormed(Sc.m, Sc.nn, Sc.w, SuppliedOf(Sc))
@@ -236,6 +254,6 @@ DimsAreShapes == \A v \in Dims :
 \* invariants are stated on g, which is the selected grid in phase "sub"
 
 (* ---- generation ----------------------------------------------------------------- *)
-Terminal == seen = ObsSet /\ (WithSelect => phase = "sub")
+Terminal == seen = ObsSet /\ (WithDual => phase = "dual") /\ (WithSelect /\ ~WithDual => phase = "sub")
 Emit == TrackHist /\ Terminal => PrintT(<< "H", hist >>)
 =============================================================================
